@@ -167,5 +167,14 @@ def build_pyramid(spec):
 
         pyr = Pyramid.new_toast_filtered(spec["depth"], _latlon_tile_filter(*spec["bbox"]), coordsys=coordsys_of(spec))
     if spec.get("apex"):
+        if spec.get("seed", 0) % 3 == 0:
+            # the object is USED before it is restricted (counted, its leaves visited, a walk run): whatever it remembers
+            # about its tiles from then must not survive subpyramid()
+            k = (spec.get("seed", 0) // 3) % 3
+            pyr.count_live_tiles()
+            if k >= 1:
+                pyr.visit_leaves(lambda p, t: None, parallel=1)
+            if k == 2:
+                pyr.walk(lambda p: None, parallel=1)
         pyr.subpyramid(Pos(*spec["apex"]))
     return pyr
